@@ -287,8 +287,19 @@ fn fully_named(x: &Tgt) -> bool { let mut ok = true; x.maps.visit(|_, r, _| if r
 
 fn pair_case(rng: &mut Rng, rep: &mut Report, i: u64) {
     let dom = i % 8;
-    let share = Share::ALL[((i / 8) % 6) as usize];
+    let mut share = Share::ALL[((i / 8) % 6) as usize];
     let base = GenCfg { namespaces: Some(2), fully_named: true, param_src: ParamSrc::Never, comments: CommentClass::Rich, comment_chance: (2, 5), max_classes: 5, max_fields: 3, max_methods: 3, big: (1, 60), ..GenCfg::default() };
+    // every 7th pair is WIDE at one level (up to 90 classes, or up to 90 fields / methods per class): sizes at which an
+    // implementation may switch strategy (sorting, hashing, "same key set" short cuts); mostly with all keys shared
+    let wide = i % 7 == 3;
+    let base = if !wide { base } else {
+        share = [Share::AllKeys, Share::AllKeys, Share::SomeKeys, Share::Identical][((i / 21) % 4) as usize];
+        match (i / 7) % 3 {
+            0 => GenCfg { max_classes: 90, max_fields: 1, max_methods: 1, big: (0, 1), ..base },
+            1 => GenCfg { max_classes: 2, max_fields: 90, big: (0, 1), ..base },
+            _ => GenCfg { max_classes: 2, max_methods: 90, max_params: 1, big: (0, 1), ..base },
+        }
+    };
     let (cfg, domain) = match dom {
         0..=4 => (base, "judged"),
         5 => (GenCfg { comments: CommentClass::Hostile, ..base }, "judged_hostile_comments"),
@@ -320,6 +331,15 @@ fn pair_case(rng: &mut Rng, rep: &mut Report, i: u64) {
                 if ps > 0 { rep.count("pairs.parameter.some_shared"); } if ps < mx.params.len() { rep.count("pairs.parameter.some_only_in_A"); } if ps < my.params.len() { rep.count("pairs.parameter.some_only_in_B"); }
                 if ps == 0 && !mx.params.is_empty() && !my.params.is_empty() { rep.count("pairs.parameter.none_shared"); }
             } }
+        } }
+    }
+    if wide {
+        // levels with >= 32 entries whose key sets are equal on both sides (their insertion orders differ: build_target shuffles)
+        fn same<K: PartialEq>(x: Vec<&K>, y: Vec<&K>) -> bool { x.len() >= 32 && x == y }
+        if same(a.maps.classes.keys().collect(), b.maps.classes.keys().collect()) { rep.count("pairs.wide.class_level_with_32_or_more_entries_and_equal_key_sets"); }
+        for (k, x) in &a.maps.classes { if let Some(y) = b.maps.classes.get(k) {
+            if same(x.fields.keys().collect(), y.fields.keys().collect()) { rep.count("pairs.wide.field_level_with_32_or_more_entries_and_equal_key_sets"); }
+            if same(x.methods.keys().collect(), y.methods.keys().collect()) { rep.count("pairs.wide.method_level_with_32_or_more_entries_and_equal_key_sets"); }
         } }
     }
     let input = || json!({"workload": "pairs", "domain": domain, "share": share.name(), "A": a.maps.render(), "A_file_comment": a.file_comment, "B": b.maps.render(), "B_file_comment": b.file_comment});
@@ -676,6 +696,7 @@ fn main() {
         for a in ["None", "Add", "Remove", "Edit", "EditSame"] { for t in ["absent", "present_matching", "present_mismatching", "present_equal_to_new_value"] { need.push(format!("option.{a}.{t}")); } }
         for k in need { meta.oblige(format!("at least one case with {k}"), rep.get(&k) > 0); }
         meta.oblige("at least 10 distinct text layouts written", rep.seen_n("text.layouts") >= 10);
+        for l in ["class", "field", "method"] { meta.oblige(format!("at least 3 wide pairs whose {l} level has 32 or more entries and the same key set on both sides"), rep.get(&format!("pairs.wide.{l}_level_with_32_or_more_entries_and_equal_key_sets")) >= 3); }
     }
     std::process::exit(finish(&ctx, rep, meta));
 }
